@@ -65,6 +65,45 @@ def fuelFor (max : ℕ) : ℕ := 2 * max + 2
 def resetTol (adapt : Bool) (max : ℕ) (tolOld : ℚ) (s : Ctl V) : ℚ :=
   if adapt && decide (max ≤ s.nIter) then tolOld else s.tol
 
+/-! ### The loop constants as source-level parameters (target of the translator
+`harness/c17.py:translate()` → `Generated/FcpLoop.lean`) -/
+
+/-- Comparison operators and numeric factors of the loop as written in `FCPTPA.fit`. -/
+structure LoopConsts where
+  /-- `if n_iter > max_iteration` (`true`) or `>=` (`false`). -/
+  maxStrict : Bool
+  /-- `n_iter < f * max_iteration` (`true`) or `<=`. -/
+  adaptStrict : Bool
+  /-- the factor `f` (coded: 2). -/
+  adaptFactor : ℕ
+  /-- `tolerance = g * tolerance` (coded: 10). -/
+  tolFactor : ℚ
+  /-- reset test `n_iter >= max_iteration` (`true`) or `>`. -/
+  resetGe : Bool
+  /-- while-condition `… > tolerance` (`true`) or `>=`. -/
+  condGt : Bool
+deriving Repr, DecidableEq
+
+/-- `body` with the constants read from the source. -/
+def bodyP (c : LoopConsts) (update : V → V) (max : ℕ) (adapt : Bool) (s : Ctl V) : Ctl V :=
+  let cur' := update s.cur
+  let n := s.nIter + 1
+  if (if c.maxStrict then decide (max < n) else decide (max ≤ n)) then
+    if adapt && (if c.adaptStrict then decide (n < c.adaptFactor * max) else decide (n ≤ c.adaptFactor * max)) then
+      { nIter := n, tol := c.tolFactor * s.tol, old := s.cur, cur := cur' }
+    else
+      { nIter := n, tol := s.tol, old := cur', cur := cur' }
+  else
+    { nIter := n, tol := s.tol, old := s.cur, cur := cur' }
+
+/-- `resetTol` with the comparison read from the source. -/
+def resetTolP (c : LoopConsts) (adapt : Bool) (max : ℕ) (tolOld : ℚ) (s : Ctl V) : ℚ :=
+  if adapt && (if c.resetGe then decide (max ≤ s.nIter) else decide (max < s.nIter)) then tolOld else s.tol
+
+/-- The constants the hand-written controller (`body`, `resetTol`, `Ratio.gt`) uses. -/
+def codedConsts : LoopConsts :=
+  { maxStrict := true, adaptStrict := true, adaptFactor := 2, tolFactor := 10, resetGe := true, condGt := true }
+
 /-- Start state of a component: `vectors_old = zeros_like(vectors)`, `n_iter = 0`. -/
 def start (zero : V → V) (tol : ℚ) (cur : V) : Ctl V :=
   { nIter := 0, tol := tol, old := zero cur, cur := cur }
